@@ -17,6 +17,7 @@ ERROR awkward_ListArray_getitem_jagged_apply(
   const C* fromstops,
   int64_t contentlen) {
   int64_t k = 0;
+  tooffsets[0] = 0;
   for (int64_t i = 0;  i < sliceouterlen;  i++) {
     T slicestart = slicestarts[i];
     T slicestop = slicestops[i];
